@@ -477,6 +477,47 @@ func ruleC11Select(p *Prog, r *Result) {
 		return false, "a scalar must be returned unchanged with no selections"
 	})
 	mp := selectPaths(pr.paths, func(pa *Path) bool { return guardPol(pa, "kind", objP, "map") == 1 })
+	// order of the selections of a map: the map itself (when marked) comes before everything selected inside it.
+	// The property only promises "a fixed order"; this pins the present one, because every consumer of a
+	// multi-document output stream sees a change of it.
+	markedTrue := func(pa *Path) int {
+		h := guardPol(pa, "has", objP, TM(mStr("$output")))
+		b := guardPol(pa, "kind", mLookup(objP, mStr("$output")), "bool")
+		e := guardPol(pa, "eq", mLookup(objP, mStr("$output")), nil)
+		if h == 1 && b == 1 && e == 1 {
+			return 1
+		}
+		if h == -1 || b == -1 || e == -1 {
+			return -1
+		}
+		return 0
+	}
+	pr.all("a marked map precedes the selections made inside it", selectPaths(mp, func(pa *Path) bool { return isSuccess(pa) && markedTrue(pa) != 0 }),
+		"outs starts as [the map itself] when it is marked, as [] otherwise, and only grows by the children's selections", func(pa *Path) (bool, string) {
+			outs := pa.Results[1]
+			if outs.Op != "carried" {
+				if outs.Op == "append" {
+					return false, "something is added to the selections after the children were visited (" + truncate(outs.String(), 60) + "): a marked map now follows the documents selected inside it"
+				}
+				return false, "the selections are not the accumulated list: " + truncate(outs.String(), 60)
+			}
+			info := pr.carried[outs.N]
+			if info.Init == nil {
+				return false, "the selections have no initial value"
+			}
+			self := pa.Results[0]
+			if markedTrue(pa) == 1 {
+				in := info.Init
+				if in.Op == "append" && len(in.Args) == 2 && (in.Args[0].IsEmptyList() || in.Args[0].IsNil()) && in.Args[1].Op == "lit" && len(in.Args[1].Args) == 1 && in.Args[1].Args[0].String() == self.String() {
+					return true, ""
+				}
+				return false, "a marked map is not the first of its own selections (initial value " + truncate(in.String(), 60) + ")"
+			}
+			if info.Init.IsEmptyList() || info.Init.IsNil() {
+				return true, ""
+			}
+			return false, "an unmarked map contributes a selection of its own: " + truncate(info.Init.String(), 60)
+		})
 	src := mOr(objP, mOp("clone", objP))
 	rec := mCall("bkl.findOutputs", mElemOf(src))
 	pr.all("map: children are visited in sorted key order; their selections follow, the rebuilt child is stored under its key", selectPaths(mp, func(pa *Path) bool { return pa.End == "iter" }),
